@@ -346,7 +346,23 @@ def run(ctx):
     exact = True
     rets_ = [n.stmt for n in rg_.nodes if n.kind == 'stmt' and isinstance(n.stmt, ast.Return)]
     rnames = set(r.value.id for r in rets_ if isinstance(r.value, ast.Name))
-    if len(rnames) != 1 or any(not isinstance(r.value, ast.Name) for r in rets_):
+    vpar = params(ur)[0] if params(ur) else None
+
+    def empty_when_no_bits(rnode):
+        """`return []` reached only when the stored integer has no bit set (None / 0): a dominating falsy test of the parameter"""
+        r = rnode.stmt
+        if not ((isinstance(r.value, ast.List) and not r.value.elts) or (isinstance(r.value, ast.Call) and call_name(r.value) == 'list' and not r.value.args)):
+            return False
+        for t_, lab_ in dominating_edges(rg_, rnode):
+            if isinstance(t_.stmt, ast.Name) and t_.stmt.id == vpar and lab_ == 'F':
+                return True
+            q_ = cmp_parts(t_.stmt)
+            if q_ and isinstance(q_[0], ast.Name) and q_[0].id == vpar and isinstance(q_[2], ast.Constant) and q_[2].value in (None, 0) \
+                    and ((q_[1] in ('Is', 'Eq') and lab_ == 'T') or (q_[1] in ('IsNot', 'NotEq') and lab_ == 'F')):
+                return True
+        return False
+    other_rets = [n for n in rg_.nodes if n.kind == 'stmt' and isinstance(n.stmt, ast.Return) and not isinstance(n.stmt.value, ast.Name)]
+    if len(rnames) != 1 or not all(empty_when_no_bits(n) for n in other_rets):
         exact = False
     else:
         lv_ = next(iter(rnames))
